@@ -58,6 +58,12 @@ func VerifC08EdgeSort() {
 	k := vBound("c08.k", 2)
 	// destinations 1 and 2 share the function name and differ only in the line
 	infos := []NodeInfo{{Name: "a"}, {Name: "b", File: "x.go", Lineno: 1}, {Name: "b", File: "x.go", Lineno: 2}, {Name: "c"}}
+	if vChoice("twins", 2) == 1 {
+		// destinations that print alike: overloads with one simplified name, told apart only by
+		// their start line / original name (reports that set ObjNames: callgrind, list, raw)
+		infos[1] = NodeInfo{Name: "b", OrigName: "b(int)", File: "x.go", StartLine: 10}
+		infos[2] = NodeInfo{Name: "b", OrigName: "b(double)", File: "x.go", StartLine: 40}
+	}
 	nodes := make([]*Node, 4)
 	for i := range nodes {
 		nodes[i] = &Node{Info: infos[i]}
@@ -98,6 +104,11 @@ func VerifC08NodeSort() {
 		{Name: "f", File: "x.go", Lineno: 1},
 		{Name: "f", File: "x.go", Lineno: 2},
 		{Name: "g", File: "x.go", Lineno: 1, Address: 16},
+	}
+	if vChoice("twins", 2) == 1 {
+		// nodes that print alike and differ only in the start line
+		infos[0] = NodeInfo{Name: "f", File: "x.go", StartLine: 10}
+		infos[1] = NodeInfo{Name: "f", File: "x.go", StartLine: 40}
 	}
 	ns := make([]*Node, k)
 	for i := 0; i < k; i++ {
